@@ -105,7 +105,7 @@ def showEv : Ev → String
   | .os off n => "o" ++ toString off.length ++ ":" ++ toString (adler32 off) ++ ">" ++ toString n
   | .osErr off => "o" ++ toString off.length ++ ":" ++ toString (adler32 off) ++ ">E"
   | .halfClose => "H"
-  | .lost r pending _ _ => "X" ++ showReason r ++ ":" ++ toString pending
+  | .lost r pending _ _ _ => "X" ++ showReason r ++ ":" ++ toString pending
   | .raised => "!RuntimeError"
 
 def b01 (b : Bool) : String := if b then "1" else "0"
